@@ -296,7 +296,7 @@ def idxMentions (i : String) : IdxE → Bool
 def subComputed (i : String) : Sub → Bool
   | .at (.var _) => false
   | .at e => idxMentions i e
-  | .range _ _ => false
+  | .range _ _ _ => false
 
 mutual
 def exprComputedSub (i : String) : MExpr K → Bool
@@ -436,12 +436,10 @@ def genStmts (P : Prims K) (o : Opts) (T : FTab K) : List (Stmt K) → SymVals K
 
 def lookupAll (vals : SymVals K) : List String → G (List (String × CTerm K))
   | [] => .ok []
-  | x :: xs => do
-    let t ← match SymVals.get vals x with
-      | some t => pure t
-      | none => .error (.keyError x)
-    let rest ← lookupAll vals xs
-    .ok ((x, t) :: rest)
+  | x :: xs =>
+    match SymVals.get vals x with
+    | none => .error (.keyError x)
+    | some t => do let rest ← lookupAll vals xs; .ok ((x, t) :: rest)
 
 def genFunc (P : Prims K) (o : Opts) (T : FTab K) (f : MFunc K) : G (CFunc K) := do
   let init : SymVals K := f.inputs.map (fun x => (x, .ref x []))
